@@ -173,7 +173,10 @@ func reductions(a zipgen.Archive) []zipgen.Archive {
 	return out
 }
 
+var nShows, nMinimise int64
+
 func shows(wk *worker, spec zipgen.Archive, path []string, id string) bool {
+	nShows++
 	restrict := append([]string{}, path...)
 	r := runBase(wk, -1, spec, restrict)
 	if r.scope != "" {
@@ -187,12 +190,21 @@ func shows(wk *worker, spec zipgen.Archive, path []string, id string) bool {
 	return false
 }
 
-func minimise(wk *worker, spec zipgen.Archive, path []string, id string) zipgen.Archive {
+// minimise reduces a spec while the symptom persists. With valueSteps=false
+// only feature-removing steps are taken, so the result is contained in the
+// start spec (covers() holds); with valueSteps=true equal-weight steps to
+// smaller feature values are allowed too (canonical representative).
+func minimise(wk *worker, spec zipgen.Archive, path []string, id string, valueSteps bool) zipgen.Archive {
+	nMinimise++
 	cur := cloneSpec(spec)
 	for changed := true; changed; {
 		changed = false
 		for _, cand := range reductions(cur) {
-			if specRank(cand) < specRank(cur) && shows(wk, cand, path, id) {
+			better := specWeight(cand) < specWeight(cur)
+			if valueSteps {
+				better = specRank(cand) < specRank(cur)
+			}
+			if better && shows(wk, cand, path, id) {
 				cur = cand
 				changed = true
 				break
@@ -205,8 +217,8 @@ func minimise(wk *worker, spec zipgen.Archive, path []string, id string) zipgen.
 // friendly names for the defects the property text announces; every other key
 // is the systematic one.
 var aliases = map[string]string{
-	"wrong:reader|[size=0,desc=24sig]": "empty-member-zip64-descriptor-misread",
-	"wrong:writer|[size=0,desc=24sig]": "empty-member-zip64-descriptor-misread-corrupts-rewrite",
+	"wrong:reader|[size=0&desc=24sig]": "empty-member-zip64-descriptor-misread",
+	"wrong:writer|[size=0&desc=24sig]": "empty-member-zip64-descriptor-misread-corrupts-rewrite",
 	"panic:zipslicer.(*Directory).GetOriginalDirectory>zipslicer.(*Directory).WriteDirectory": "getoriginaldirectory-nil-writer-panic",
 	"wrong:reserialise:getoriginaldirectory:end-records-zero-padded|members=1":                "getoriginaldirectory-zero-padded-end-record",
 	"wrong:reserialise:getoriginaldirectory-trim:end-records-zero-padded|members=1":           "getoriginaldirectory-zero-padded-end-record",
@@ -256,7 +268,7 @@ func causeClass(a zipgen.Archive) string {
 	if s == "" {
 		s = fmt.Sprintf("members=%d", len(a.Members))
 	}
-	return s
+	return strings.ReplaceAll(s, ",", "&") // keys are listed comma-separated in C17_KNOWN_EXTRA
 }
 
 // looseCovers: every featured member of a embeds (any order) into b, and a's
@@ -295,8 +307,9 @@ func looseCovers(a, b zipgen.Archive) bool {
 }
 
 type cause struct {
-	spec   zipgen.Archive
-	prefix string // kind:group[:class][@path]
+	spec   zipgen.Archive // contained in every archive attributed to it
+	canon  zipgen.Archive // canonical representative (smallest feature values) used for naming
+	prefix string         // kind:group[:class][@path]
 	class  string
 	path   []string
 	merged *cause
@@ -392,11 +405,12 @@ func attribute(wk *worker, specs []zipgen.Archive, records []record) []*keyInfo 
 			hit = find(sp, spec)
 		}
 		if hit == nil {
-			hit = &cause{spec: spec, path: path}
+			hit = &cause{spec: spec, canon: spec, path: path}
 			if r.Sym.Kind == "panic" {
 				hit.prefix = "panic:" + r.Sym.Class // entry>top relic functions
 			} else {
-				hit.spec = minimise(wk, spec, path, id)
+				hit.spec = minimise(wk, spec, path, id, false)
+				hit.canon = minimise(wk, hit.spec, path, id, true)
 				hit.prefix = r.Sym.Kind + ":" + stageGroup(r.Sym.Stage)
 				if stageGroup(r.Sym.Stage) == "reserialise" {
 					hit.prefix += ":" + r.Sym.Stage + ":" + r.Sym.Class
@@ -404,9 +418,9 @@ func attribute(wk *worker, specs []zipgen.Archive, records []record) []*keyInfo 
 				if len(path) > 1 {
 					hit.prefix += "@" + pathKey(path)
 				}
-				hit.class = causeClass(hit.spec)
+				hit.class = causeClass(hit.canon)
 			}
-			hit.weight = specWeight(hit.spec)
+			hit.weight = specWeight(hit.canon)
 			causes[sp] = append(causes[sp], hit)
 			allCauses = append(allCauses, hit)
 		}
@@ -420,13 +434,13 @@ func attribute(wk *worker, specs []zipgen.Archive, records []record) []*keyInfo 
 		}
 		return sorted[i].class < sorted[j].class
 	})
-	featureCount := func(c *cause) int { return specWeight(c.spec) - 10*len(c.spec.Members) }
+	featureCount := func(c *cause) int { return specWeight(c.canon) - 10*len(c.canon.Members) }
 	for _, b := range sorted {
 		for _, a := range sorted {
 			if a == b || a.root() == b.root() || a.prefix != b.prefix || a.class == b.class {
 				continue
 			}
-			if featureCount(a) > 0 && featureCount(a) < featureCount(b) && looseCovers(a.spec, b.spec) {
+			if featureCount(a) > 0 && featureCount(a) < featureCount(b) && looseCovers(a.canon, b.canon) {
 				b.merged = a.root()
 				break
 			}
@@ -440,7 +454,7 @@ func attribute(wk *worker, specs []zipgen.Archive, records []record) []*keyInfo 
 		key := as.c.key()
 		info := infos[key]
 		if info == nil {
-			info = &keyInfo{Key: key, Symptoms: map[string]int{}, Reproducer: c.spec.String(), Path: c.path, Example: r.Sym.ID() + ": " + r.Sym.Desc, DevKnown: devKnown[key], spec: c.spec}
+			info = &keyInfo{Key: key, Symptoms: map[string]int{}, Reproducer: c.canon.String(), Path: c.path, Example: r.Sym.ID() + ": " + r.Sym.Desc, DevKnown: devKnown[key], spec: c.canon}
 			infos[key] = info
 			infoOrder = append(infoOrder, info)
 		}
@@ -449,8 +463,8 @@ func attribute(wk *worker, specs []zipgen.Archive, records []record) []*keyInfo 
 		if info.DevKnown {
 			continue
 		}
-		desc := fmt.Sprintf("%s — %s; minimal generator parameters: %s", as.sp, r.Sym.Desc, c.spec.String())
-		run.Violation(info.Key, desc, map[string]any{"archive": c.spec, "writer_path": c.path, "symptom": r.Sym, "first_seen_on": map[string]any{"archive": specs[r.Base], "writer_path": r.Path}})
+		desc := fmt.Sprintf("%s — %s; minimal generator parameters: %s", as.sp, r.Sym.Desc, c.canon.String())
+		run.Violation(info.Key, desc, map[string]any{"archive": c.canon, "writer_path": c.path, "symptom": r.Sym, "first_seen_on": map[string]any{"archive": specs[r.Base], "writer_path": r.Path}})
 	}
 	for _, i := range infoOrder {
 		run.Outcome("violation-class:" + i.Key)
